@@ -128,6 +128,35 @@ P["C07"] = dict(
     ref="DESIGN.md section 3, C07",
 )
 
+P["C11"] = dict(
+    text="Only the tables that drive the parser: exhaustive agreement of opcodeMap / extendedOpcodeMap / pOpcodeTable / pOpcodeTableIndex over all 511 "
+         "opcode values and all opcode constants, agreement of the makeArgN encoders with the argCount()/arg() decoders for every table row, "
+         "closedness of the argument-type dispatch between parseArg and parseSimpleArg, and the per-row facts the later passes rely on (named "
+         "entries start with a NameString, deferred ones with PkgLen, Method's flags are attached argument #1). Computed by constant folding of the "
+         "program's own lookup functions through go/ssa control flow. Scoping, relocation, forward references and multi-table loads - the "
+         "behavioural core of C11 - are NOT decided; the size of this claim is small and stated as such.",
+    technique="exhaustiveness / table agreement by constant folding of SSA over finite domains",
+    ref="DESIGN.md section 3, C11",
+)
+
+P["C12"] = dict(
+    text="Memory-safety skeleton of the AML reader: the byte reader is the only code that touches the table bytes and every one of its stores and "
+         "indexes has the bounded form (inductive invariant offset, pkgEnd <= len(data)); every slice header laid over table memory has a length "
+         "of one of three validated forms (found and fixed F7); every parseResult is propagated. Termination, recursion depth, absence of panics "
+         "and tree well-formedness after a failed parse are not decided.",
+    technique="writers-of ownership + SSA dominance facts per phi edge + polynomial forms + result-use discipline",
+    ref="DESIGN.md section 3, C12",
+)
+
+P["C13"] = dict(
+    text="Local step of the tree invariant: link fields are written only by the five surgery methods; every sibling-link store is one of the "
+         "enumerated idioms (mutual link, splice-in, guarded bypass, reset, free-list push/pop) with its partner on every path; parent first/last "
+         "indices and the node's parent index are maintained; free-list reuse before growth, refusal to free objects with children, freed slots "
+         "unreachable through ObjectAt. Lookup semantics of Find and the induction over histories are not decided.",
+    technique="writers-of ownership + idiom-table pairing on all CFG paths + SSA dominance",
+    ref="DESIGN.md section 3, C13",
+)
+
 ALL = ["C%02d" % i for i in range(1, 21)]
 
 def main():
